@@ -60,6 +60,8 @@ class Gen:
         for index in range(rng.randint(1, self.max_roots)):
             roots.append({'name': 'r%d' % index, 'steps': self.steps(0)})
         self.resolve_later(roots)
+        # some programs use classes of their own derived from the library's
+        self.objects['subclassed'] = rng.random() < 0.15
         return {'objects': self.objects, 'roots': roots, 'start': start, 'till': None}
 
     def resolve_later(self, node):
